@@ -438,6 +438,24 @@ fn base_features() -> Vec<(&'static str, Vec<Item>)> {
             ],
         ),
         (
+            // bit ranges written with a dash (`7-4` lexes as `7` and `-4`), forwards and backwards, and single bits
+            "bit-range-dash",
+            vec![def(
+                "w8",
+                vec![],
+                Some(vec![
+                    f(Ty::Bits(8), "word", int(0)),
+                    f(Ty::Bits(4), "hi4", E::Raw("word{7-4}".into())),
+                    f(Ty::Bits(4), "rev4", E::Raw("word{2-5}".into())),
+                    f(Ty::Bits(2), "lo2", E::Raw("word{1-0}".into())),
+                    f(Ty::Bits(3), "mix3", E::Raw("word{7, 3-2}".into())),
+                    f(Ty::Bits(4), "dots4", E::Raw("word{7...4}".into())),
+                    f(Ty::Bit, "one", E::Raw("word{3}".into())),
+                    f(Ty::Int, "asint", E::Raw("word{6-1}".into())),
+                ]),
+            )],
+        ),
+        (
             "class-values",
             vec![def(
                 "cv",
